@@ -27,7 +27,11 @@ func main() {
 			fmt.Println("usage: e3 <property> <tier>")
 			os.Exit(2)
 		}
-		os.Exit(e3.Main(os.Args[2], os.Args[3]))
+		only := -1
+		if len(os.Args) > 4 {
+			fmt.Sscan(os.Args[4], &only)
+		}
+		os.Exit(e3.Main(os.Args[2], os.Args[3], only))
 	default:
 		fmt.Printf("INFRA unknown sub-command %q\n", os.Args[1])
 		os.Exit(2)
